@@ -82,6 +82,20 @@ theorem tofu_off (s : Pins) (k : Key) (p : Presented) (pl : List Nat) (r : Nat) 
     (∀ k' b, Act.verify k' b ∉ (connectOff s k p pl r).2.2) ∧ (∀ k' f, Act.trust k' f ∉ (connectOff s k p pl r).2.2) :=
   ⟨(Misc.tofu_off s k p pl r).1, (Misc.tofu_off s k p pl r).2.1, (Misc.tofu_off s k p pl r).2.2.2.1, (Misc.tofu_off s k p pl r).2.2.2.2⟩
 
+/-- two first connections to one unpinned key that are shown different certificates — in whichever order
+    they are serialised — never both succeed: the first pins its certificate, the second is a
+    certificate-changed error naming both, and the pin stays the first one's.  (Assumption on the code:
+    `verify` and `trust` of one connection are one uninterrupted step of the event loop; the harness
+    checks this with overlapping calls and a slowed-down store.) -/
+theorem first_use_race (s : Pins) (k : Key) (a b : Fp) (pl1 pl2 : List Nat) (r1 r2 : Nat) (h : s.get k = none) (hne : a ≠ b) :
+    (connect s k (.cert a) pl1 r1).2.1 = .accepted r1 ∧
+    (connect (connect s k (.cert a) pl1 r1).1 k (.cert b) pl2 r2).2.1 = .changed a b ∧
+    (connect (connect s k (.cert a) pl1 r1).1 k (.cert b) pl2 r2).1.get k = some a := by
+  have h1 := Misc.connect_first_use s k a pl1 r1 h
+  have h2 := Misc.connect_changed (connect s k (.cert a) pl1 r1).1 k a b pl2 r2 h1.2 hne
+  refine ⟨h1.1, h2.1, ?_⟩
+  rw [h2.2]; exact h1.2
+
 /-- import: a new key gets the imported pin; a conflicting entry without a callback changes nothing -/
 theorem import_new (u : Bool) (s : Pins) (k : Key) (f : Fp) (h : s.get k = none) :
     (importEntry u s (k, f)).get k = some f := importEntry_new u s k f h
